@@ -75,11 +75,20 @@ FieldsOK(e) == \A i \in DOMAIN e.occ :
     e.occ[i].keyok /\ e.occ[i].compok /\ e.occ[i].tagsok /\ e.occ[i].linksok /\ e.occ[i].idok
 
 (* constructor table: what the statement prescribes for one constructor call *)
-CtorExpect(c) ==
+CtorExpectL(c, lim) ==
     IF c.key \in {"empty", "none", "nonstr"} /\ c.haskey THEN "error"
     ELSE IF c.kw \in {"type", "keyname"} THEN "error"
-    ELSE IF c.sized /\ c.len > c.limit THEN "stub"
+    ELSE IF c.sized /\ c.len > lim THEN "stub"
     ELSE "full"
+CtorExpect(c) == CtorExpectL(c, c.limit)
+
+(* "the configured size limit" (insights/settings.py): the sources are read in *)
+(* a fixed order - the packaged defaults, the system-wide file, the user's     *)
+(* file, the directory's file - and a later source that sets the limit wins.   *)
+(* layers[i] = 0: source i absent or silent about the limit.                   *)
+RECURSIVE LastSet(_, _)
+LastSet(layers, n) == IF n = 0 THEN 0 ELSE IF layers[n] # 0 THEN layers[n] ELSE LastSet(layers, n - 1)
+ConfiguredLimit(layers) == LastSet(layers, Len(layers))
 
 Accepts ==
     CASE Ev.ev = "att" -> Ev.r \in DOMAIN rules /\ Ev.r \notin processed
@@ -100,6 +109,9 @@ Accepts ==
                                   /\ (Ev.all => (so = OccOf(q.r) /\ q.skips = InSkips(q.r)
                                                  /\ q.meta = Cardinality({m \in meta : m.r = q.r})))
       [] Ev.ev = "ctor" -> Ev.got = CtorExpect(Ev)
+      \* a fresh process whose limit comes from the configuration sources, nothing set in-process
+      [] Ev.ev = "ctorconf" -> /\ Ev.seen = ConfiguredLimit(Ev.layers)
+                               /\ Ev.got = CtorExpectL(Ev, ConfiguredLimit(Ev.layers))
       [] OTHER -> FALSE
 
 Apply ==
@@ -130,6 +142,8 @@ Diagnose ==
     CASE Ev.ev = "att" -> "ExactlyOneOutcome.attempted-twice"
       [] Ev.ev = "obs" -> DiagObs
       [] Ev.ev = "fmt" -> "ShownSubset"
+      [] Ev.ev = "ctorconf" -> IF Ev.seen # ConfiguredLimit(Ev.layers) THEN "ConfiguredLimit:later-source-does-not-win"
+                               ELSE "ConfiguredLimit:" \o Ev.cls \o ":expected-" \o CtorExpectL(Ev, ConfiguredLimit(Ev.layers)) \o ":got-" \o Ev.got
       [] Ev.ev = "ctor" -> "Constructor:" \o Ev.cls \o ":key-" \o Ev.key \o ":kw-" \o Ev.kw \o ":expected-" \o CtorExpect(Ev) \o ":got-" \o Ev.got
       [] Ev.ev = "escaped" -> "NoEscape"
       [] Ev.ev = "unattributed" -> "ExactlyOneOutcome.entry-of-no-rule"
